@@ -40,7 +40,8 @@ for i in (1, 2):
     ok = res.get("build_ok") and res["demo_with"] == "FAIL" and res["demo_without"] == "PASS"
     print(P, i, "build", res.get("build_ok"), "demo with/without:", res["demo_with"], res["demo_without"], "check exit", rc, "violations", len(viol), "=> keep" if ok else "=> NOT confirmed")
     if not ok: continue
-    dst = f"/verif/seeded/{P}-{i}"; os.makedirs(dst, exist_ok=True)
+    k = i + int(os.environ.get("SEED_OFFSET", "0"))
+    dst = f"/verif/seeded/{P}-{k}"; os.makedirs(dst, exist_ok=True)
     shutil.copy(diff, f"{dst}/patch.diff"); shutil.copy(demo, f"{dst}/demo_test.go.txt")
     sec = re.split(r"\n(?=#+ )", notes)
     about = next((s for s in sec if f"MUT{i}" in s[:200]), "")[:3000]
